@@ -6,9 +6,10 @@ from pyvc.spec import Spec
 def build() -> Spec:
     spec = Spec()
     models.install(spec)
-    from . import axioms_asyncio, helpers_c, models_c, schema, service_c
+    from . import axioms_asyncio, axioms_pydantic, helpers_c, models_c, schema, service_c
     axioms_asyncio.install(spec)
     schema.install(spec)
+    axioms_pydantic.install(spec)
     helpers_c.install(spec)
     models_c.install(spec)
     service_c.install(spec)
